@@ -18,7 +18,7 @@ for id in $ids; do
     if grep -q '^VIOLATION' .work/seeded_$c.log; then caught="$caught $c"; fi
   done
   git -C /repo checkout -- .
-  summary=$(python3 -c "import json,sys; print(json.load(open('seeded/$id/meta.json')).get('summary','')[:160].replace('|','/'))" 2>/dev/null)
+  summary=$(python3 -c "import json,sys; print(json.load(open('seeded/$id/meta.json')).get('summary','').replace('\n',' ').replace('|','/')[:160])" 2>/dev/null)
   grep -v "^| $id |" "$out" > "$out.tmp"; mv "$out.tmp" "$out"
   echo "| $id | $summary | ${caught:-NONE} |" >> "$out"
   echo "$id caught by:${caught:- NONE}"
